@@ -272,6 +272,8 @@ def run_enc_vector(i, v):
     u = v['u']
     if v['sub'] == 'srpol':
         cls = 'srpol-%s-l%d-s%s' % (u['enc'], len(u['lists']), '.'.join(str(len(sl['segs'])) for sl in u['lists']))
+    elif v['sub'] == 'pmsievpn':
+        cls = 'pmsievpn-t%d-encap%d-%s' % (u['p']['ttype'], u['encap'], u['form'])
     elif v['sub'] == 'pmsi':
         cls = 'pmsi-t%d-id%d' % (u['ttype'], len(u['id']))
     elif v['sub'] == 'srte':
